@@ -243,9 +243,11 @@ fn c01_one(ctx: &Ctx, idx: u64, rep: &mut Report, input: Rc<Vec<u8>>, cfg: &Conf
         rep.map("via", &format!("{:?}", via));
     }
     rep.map("family", family);
-    if rep.want_sample() && !r.recs.is_empty() && input.len() > cfg.cap {
+    let exh = family == "small-exhaustive";
+    if rep.want_sample() && !r.recs.is_empty() && input.len() > cfg.cap && (!exh || rep.samples.is_empty()) && (exh || r.recs.len() >= 2) {
         rep.sample(json!({"input": show(&input), "config": cfg.describe(), "family": family,
-            "reference_records": r.recs.len(), "reference_error": format!("{:?}", r.err)}));
+            "reference_records": r.recs.len(), "reference_error": format!("{:?}", r.err),
+            "read_via": vias.iter().map(|v| format!("{:?}", v)).collect::<Vec<_>>()}));
     }
 }
 
@@ -508,8 +510,12 @@ fn c02_one(ctx: &Ctx, idx: u64, rep: &mut Report, input: Rc<Vec<u8>>, cfg: &Conf
         rep.map("via", &format!("{:?}", via));
     }
     rep.map("family", family);
-    if rep.want_sample() && input.len() > cfg.cap && input.len() > 12 {
-        rep.sample(json!({"input": show(&input), "config": cfg.describe(), "family": family}));
+    let exh = family == "small-exhaustive";
+    if rep.want_sample() && input.len() > cfg.cap && (if exh { rep.samples.is_empty() && input.len() >= 7 } else { input.len() > 30 }) {
+        let r = crate::refmodel::ref_fastq(&input);
+        rep.sample(json!({"input": show(&input), "config": cfg.describe(), "family": family,
+            "reference_records": r.recs.len(), "reference_error": format!("{:?}", r.err),
+            "read_via": vias.iter().map(|v| format!("{:?}", v)).collect::<Vec<_>>()}));
     }
 }
 
